@@ -155,7 +155,7 @@ Proof.
   - (* shape *) rewrite unwind_heap. exact Hshape.
   - (* tables *) rewrite unwind_heap. exact Htbl.
   - (* counters *)
-    destruct Hcnt as [C1 C2 C3 C4 C5]. split; rewrite ?unwind_heap.
+    destruct Hcnt as [C1 C2 C3 C4 C5 C6]. split; rewrite ?unwind_heap.
     + intros o b n Hb Hs. rewrite HW. apply (C1 o b n Hb Hs).
     + intros o b Hb. rewrite HW, (C2 o b Hb), unwind_after, unwind_fin, unwind_leak. lia.
     + intros o b Hb. specialize (C3 o b Hb). specialize (C4 o b Hb).
@@ -170,6 +170,11 @@ Proof.
     + intros o b Hb Hp. rewrite unwind_fin in Hp. lia.
     + intros o Ho. rewrite !HW, unwind_after, unwind_fin.
       destruct (C5 o Ho) as (E1 & E2 & E3 & E4 & E5). rewrite unwind_leak. repeat split; auto. lia.
+    + intros o b Hb Hp. rewrite unwind_leak in Hp.
+      destruct (N.eq_dec (n_leak o (log s)) 0) as [E0|E0]; [|apply (C6 o b Hb); lia].
+      destruct (N.eq_dec (n_fin o k) 0) as [E1|E1]; [|apply (C4 o b Hb); lia].
+      specialize (C3 o b Hb). destruct (is_dying b) eqn:Ed; [|lia].
+      unfold is_dying in Ed. destruct (strong b); [discriminate|reflexivity].
   - (* no dangling handle *)
     intros o Ho. rewrite unwind_held in Ho. rewrite unwind_heap. apply Hnd. exact Ho.
   - (* frames *)
